@@ -946,7 +946,27 @@ pub fn main(twins: &'static [Twin]) {
             }
             let with_caps = prop == "C11";
             let (pm, pr) = (per_branch(t, &ml, with_caps), per_branch(t, &rl, with_caps));
-            if pm != pr {
+            // With pending points inside the sources an async try macro may return its failure while an earlier branch is
+            // still on its way (`futures::try_join!` stops polling at the first failure; the reference awaits branch after
+            // branch): what the cancelled branches did must then be a prefix of what the reference did, nothing more.
+            let aborted_early = stutter && t.kind.starts_with("try_") && t.kind.contains("async") && matches!(&rv, Res::Val(s) if s.starts_with("Err(") || s == "None");
+            if aborted_early {
+                *cover.entry("async_try_runs_that_fail_while_earlier_branches_are_pending (compared as prefixes)".to_string()).or_insert(0) += 1;
+                for (b, m) in &pm {
+                    let r = pr.get(b).cloned().unwrap_or_default();
+                    if m.len() > r.len() || m[..] != r[..m.len()] {
+                        msgs.push(format!("callback trace of branch {} is not a prefix of the reference's although the macro returned the failure early: macro {:?}, reference {:?}", b, m.iter().map(|e| e.1).collect::<Vec<_>>(), r.iter().map(|e| e.1).collect::<Vec<_>>()));
+                    }
+                }
+                let sub = |a: Vec<u16>, b: Vec<u16>| -> bool {
+                    let mut rest = b;
+                    a.iter().all(|x| rest.iter().position(|y| y == x).map(|p| { rest.remove(p); }).is_some())
+                };
+                if !sub(multiset(&ml, K::Eval), multiset(&rl, K::Eval)) || !sub(multiset(&ml, K::Cap), multiset(&rl, K::Cap)) {
+                    msgs.push(format!("operands / captures evaluated by the macro are not among the reference's: macro {:?}, reference {:?}", multiset(&ml, K::Eval), multiset(&rl, K::Eval)));
+                }
+            }
+            if pm != pr && !aborted_early {
                 let b = pm.keys().chain(pr.keys()).find(|b| pm.get(*b) != pr.get(*b)).copied().unwrap_or(0);
                 msgs.push(format!(
                     "callback trace of branch {} differs: macro [{}], reference [{}]",
@@ -955,10 +975,10 @@ pub fn main(twins: &'static [Twin]) {
                     pr.get(&b).map(|v| v.iter().map(|e| format!("{:?}({})", e.0, e.1)).collect::<Vec<_>>().join(" ")).unwrap_or_default()
                 ));
             }
-            if multiset(&ml, K::Eval) != multiset(&rl, K::Eval) {
+            if multiset(&ml, K::Eval) != multiset(&rl, K::Eval) && !aborted_early {
                 msgs.push(format!("operand evaluations differ (multiset): macro {:?}, reference {:?}", multiset(&ml, K::Eval), multiset(&rl, K::Eval)));
             }
-            if multiset(&ml, K::Cap) != multiset(&rl, K::Cap) {
+            if multiset(&ml, K::Cap) != multiset(&rl, K::Cap) && !aborted_early {
                 msgs.push(format!("capture evaluations differ (multiset): macro {:?}, reference {:?}", multiset(&ml, K::Cap), multiset(&rl, K::Cap)));
             }
             if (prop == "C17" || prop == "C11") && has("big") {
